@@ -5,23 +5,23 @@ namespace CbiVerif.MX
 open CbiVerif.PP
 
 /-- number of keys in `ks` that are not disabled in `D` -/
-def free (D : List String) : List String → Nat
+def free (D : NoExp) : List String → Nat
   | [] => 0
-  | k :: ks => (if D.contains k then 0 else 1) + free D ks
+  | k :: ks => (if D.contains (some k) then 0 else 1) + free D ks
 
 def keys (tbl : Table) : List String := tbl.map (·.1)
 
-theorem free_le_length (D ks : List String) : free D ks ≤ ks.length := by
+theorem free_le_length (D : NoExp) (ks : List String) : free D ks ≤ ks.length := by
   induction ks with
   | nil => simp [free]
   | cons k ks ih => simp only [free, List.length_cons]; split <;> omega
 
-theorem free_head_le (x k : String) (D : List String) :
-    (if (x :: D).contains k then 0 else 1) ≤ (if D.contains k then 0 else 1) := by
+theorem free_head_le (x : Option String) (k : String) (D : NoExp) :
+    (if (x :: D).contains (some k) then 0 else 1) ≤ (if D.contains (some k) then 0 else 1) := by
   rw [List.contains_cons]
-  cases D.contains k <;> cases (k == x) <;> decide
+  cases D.contains (some k) <;> cases (some k == x) <;> decide
 
-theorem free_cons_le (x : String) (D ks : List String) : free (x :: D) ks ≤ free D ks := by
+theorem free_cons_le (x : Option String) (D : NoExp) (ks : List String) : free (x :: D) ks ≤ free D ks := by
   induction ks with
   | nil => simp [free]
   | cons k ks ih =>
@@ -29,17 +29,17 @@ theorem free_cons_le (x : String) (D ks : List String) : free (x :: D) ks ≤ fr
     simp only [free]
     omega
 
-theorem free_cons_lt (x : String) (D ks : List String) (hx : x ∈ ks) (hD : D.contains x = false) :
-    free (x :: D) ks < free D ks := by
+theorem free_cons_lt (x : String) (D : NoExp) (ks : List String) (hx : x ∈ ks) (hD : D.contains (some x) = false) :
+    free (some x :: D) ks < free D ks := by
   induction ks with
   | nil => simp at hx
   | cons k ks ih =>
-    have hh := free_head_le x k D
+    have hh := free_head_le (some x) k D
     simp only [free]
     by_cases hk : k = x
     · subst hk
-      have hle := free_cons_le k D ks
-      have h1 : (k :: D).contains k = true := by rw [List.contains_cons]; simp
+      have hle := free_cons_le (some k) D ks
+      have h1 : (some k :: D).contains (some k) = true := by rw [List.contains_cons]; simp
       rw [h1, hD]
       simp only [if_true, Bool.false_eq_true, if_false]
       omega
@@ -62,7 +62,7 @@ theorem get_mem_keys (tbl : Table) (n : String) (m : Macro) (h : tbl.get n = som
     exact this ▸ List.mem_map_of_mem hmem
 
 /-- a nesting budget larger than the number of still-enabled macro names is never exhausted -/
-theorem fits_of_free (tbl : Table) (hT : TblOK tbl) : ∀ (d : Nat) (D : List String) (ts : List Tok),
+theorem fits_of_free (tbl : Table) (hT : TblOK tbl) : ∀ (d : Nat) (D : NoExp) (ts : List Tok),
     free D (keys tbl) < d → Fits tbl d D ts := by
   intro d
   induction d with
@@ -78,13 +78,13 @@ theorem fits_of_free (tbl : Table) (hT : TblOK tbl) : ∀ (d : Nat) (D : List St
       intro _ hq m hm
       have hname := hT.named _ _ hm
       have hmem := get_mem_keys tbl _ _ hm
-      have hD : D.contains a.text = false := by
+      have hD : D.contains (some a.text) = false := by
         simp only [Bool.or_eq_false_iff] at hq; exact hq.2
       have hlt := free_cons_lt a.text D (keys tbl) hmem hD
       rw [hname]
-      exact ihd (a.text :: D) _ (by omega)
+      exact ihd (some a.text :: D) _ (by omega)
 
-theorem fits_top (tbl : Table) (hT : TblOK tbl) (D : List String) (ts : List Tok) : Fits tbl (tbl.length + 1) D ts := by
+theorem fits_top (tbl : Table) (hT : TblOK tbl) (D : NoExp) (ts : List Tok) : Fits tbl (tbl.length + 1) D ts := by
   apply fits_of_free tbl hT
   have := free_le_length D (keys tbl)
   have hk : (keys tbl).length = tbl.length := by simp [keys]
@@ -149,8 +149,8 @@ theorem run_mono_fuel (c : Cfg) (tbl : Table) : ∀ (f : Nat) (s : MS) (r : List
 
 /-- the last two iterations: the exhausted bottom stream raises EndofParse, `expand` returns its tokens -/
 theorem run_final (c : Cfg) (tbl : Table) (R : List Tok) (n : Nat) :
-    run c tbl (n + 2) ⟨[⟨R.map some, R.length, false⟩], ["None"], [], none⟩ = .ok R := by
-  have h1 : step c tbl ⟨[⟨R.map some, R.length, false⟩], ["None"], [], none⟩
+    run c tbl (n + 2) ⟨[⟨R.map some, R.length, false⟩], [none], [], none⟩ = .ok R := by
+  have h1 : step c tbl ⟨[⟨R.map some, R.length, false⟩], [none], [], none⟩
       = .cont ⟨[], [], [], some R⟩ := by
     have : R.length ≥ (R.map some).length := by simp
     simp only [step, this, if_true, eopState, filterSome_map, List.tail_cons]
@@ -159,10 +159,39 @@ theorem run_final (c : Cfg) (tbl : Table) (R : List Tok) (n : Nat) :
   rw [e]
   simp only [run, h1, h2]
 
-/-- **object-like tables**: `expandWith` returns the recursive expansion whenever limit and fuel are large enough -/
-theorem expandWith_obj (c : Cfg) (hc : c.adv = false) (tbl : Table) (hT : TblOK tbl) (ts : List Tok) (hnd : NoDef ts)
+/-- only the macro names among the disabled entries matter: the `none` placeholders of the outermost stream and of argument
+    streams disable nothing -/
+theorem E_congr (tbl : Table) : ∀ (d : Nat) (D D' : NoExp) (ts : List Tok),
+    (∀ x, D.contains (some x) = D'.contains (some x)) → E tbl d D ts = E tbl d D' ts := by
+  intro d
+  induction d with
+  | zero =>
+    intro D D' ts _
+    induction ts with
+    | nil => simp [E]
+    | cons a as ih => simp only [E, ih]
+  | succ d ihd =>
+    intro D D' ts h
+    induction ts with
+    | nil => simp [E]
+    | cons a as iha =>
+      have hcons : ∀ (n : String) (x : String), (some n :: D).contains (some x) = (some n :: D').contains (some x) := by
+        intro n x; simp only [List.contains_cons, h x]
+      rw [E, E, h a.text, iha]
+      cases hm : tbl.get a.text with
+      | none => rfl
+      | some m => simp only [ihd (some m.name :: D) (some m.name :: D') _ (hcons m.name)]
+
+/-- at top level nothing is disabled -/
+theorem E_top (tbl : Table) (d : Nat) (ts : List Tok) : E tbl d [none] ts = E tbl d [] ts :=
+  E_congr tbl d [none] [] ts (by intro x; simp)
+
+/-- **object-like tables**: `expandWith` returns the recursive expansion (nothing disabled at the start) whenever limit and fuel
+    are large enough -/
+theorem expandWith_obj (c : Cfg) (tbl : Table) (hT : TblOK tbl) (ts : List Tok) (hnd : NoDef ts)
     (hlim : tbl.length + 2 < c.lim) (fuel : Nat) (hfuel : ts.length * Cb (bodyMax tbl) (tbl.length + 1) + 2 ≤ fuel) :
-    expandWith c tbl fuel ts = .ok (E tbl (tbl.length + 1) ["None"] ts) := by
+    expandWith c tbl fuel ts = .ok (E tbl (tbl.length + 1) [] ts) := by
+  rw [← E_top]
   unfold expandWith
   have h0 : ¬ (c.lim = 0) := by omega
   simp only [h0, if_false]
@@ -170,7 +199,7 @@ theorem expandWith_obj (c : Cfg) (hc : c.adv = false) (tbl : Table) (hT : TblOK 
   | nil => simp [E]
   | cons a as =>
     simp only [List.isEmpty_cons, Bool.false_eq_true, if_false]
-    obtain ⟨k, hkb, hk⟩ := expand_top c hc tbl hT (bodyMax tbl) (bodiesLe_bodyMax tbl) (tbl.length + 1) (a :: as) hnd
+    obtain ⟨k, hkb, hk⟩ := expand_top c tbl hT (bodyMax tbl) (bodiesLe_bodyMax tbl) (tbl.length + 1) (a :: as) hnd
       (fits_top tbl hT _ _) (by omega)
     have hrun := run_of_runK c tbl k 2 _ _ hk
     rw [run_final c tbl _ 0] at hrun
